@@ -114,12 +114,10 @@ C09_YieldOnce   == \A i, j \in DOMAIN yielded : i # j => yielded[i] # yielded[j]
 -----------------------------------------------------------------------------
 \* ---- the public surface of a Task (what Task.root() shows), used to compare with the real parser
 RECURSIVE ActTree(_, _)
-SortByLast(S) == LET RECURSIVE F(_)
-                  F(T) == IF T = {} THEN <<>> ELSE LET x == CHOOSE y \in T : \A z \in T : Last(y) <= Last(z)
-                                                   IN <<x>> \o F(T \ {x})
-              IN F(S)
-ActTree(T, l) == LET n == T.nodes[l]  ks == SortByLast(n.kids) IN
-                 <<"act", n.start, n.endp,
-                   [i \in DOMAIN ks |-> IF ks[i] \in DOMAIN T.nodes THEN ActTree(T, ks[i]) ELSE <<"msg", Last(ks[i])>>]>>
+\* children in the order of their last index (closed form: TLC re-evaluates LET definitions inside recursive operators)
+SortByLast(S) == [i \in 1..Cardinality(S) |-> CHOOSE y \in S : Cardinality({z \in S : Last(z) < Last(y)}) = i - 1]
+KidTree(T, k) == IF k \in DOMAIN T.nodes THEN ActTree(T, k) ELSE <<"msg", Last(k)>>
+ActTree(T, l) == <<"act", T.nodes[l].start, T.nodes[l].endp,
+                   [i \in 1..Cardinality(T.nodes[l].kids) |-> KidTree(T, SortByLast(T.nodes[l].kids)[i])]>>
 TreeOf(T) == IF T.nodes[<<>>].ismsg THEN <<"msgroot">> ELSE ActTree(T, <<>>)
 =============================================================================
